@@ -28,7 +28,12 @@ def run(rep, pdb, tier):
         dvars = {d for _, d in divs}
         rule = "the divisor of every residual normalisation is a local that, after its definition from norm_2(), passes `if n == 0.0 { n = 1.0 }` before its first use as divisor"
         ok, det = len(dvars) == 1 and list(dvars)[0][0] == "var" and len(divs) >= 1, "normalisation divisors: %s" % [show(d, ctx) for d in dvars]
-        if ok:
+        from .c08 import repaired_norm
+        if len(dvars) == 1 and len(divs) >= 1 and repaired_norm(list(dvars)[0]) is not None:
+            N = repaired_norm(list(dvars)[0])
+            ok = N[0] == "call" and str(N[1]).endswith("::norm_2")
+            det = "divisor is the repaired expression `if N == 0 { c } else { N }`, N = %s" % show(N, ctx)
+        elif ok:
             nb = list(dvars)[0]
             first_use = min(_pos(n) for n, _ in divs)
             fix = None
